@@ -10,7 +10,7 @@ WT=/tmp/wt-$TAG
 /verif/tools/mkscratch.sh $WT >/dev/null
 ( cd $WT && patch -p1 -s < "$PATCH" )
 set +e
-export VERIF_BUILD_TAG=$TAG VERIF_TMP=/dev/shm/$TAG
+export VERIF_BUILD_TAG=$TAG VERIF_TMP=/dev/shm/$TAG VERIF_EVIDENCE_DIR=/dev/shm/$TAG/evidence
 mkdir -p /dev/shm/$TAG
 unshare -m sh -c "mount --bind $WT /repo && cd /verif && $*"
 RC=$?
